@@ -879,7 +879,8 @@ def titleparts_fn(
         num_return = num_parts
     elif num_return < 0:
         num_return = max(0, num_parts + num_return)
-    parts = parts[2 * first : 2 * (first + num_return) - 1]
+    # no segments left to return: the end index must not go negative
+    parts = parts[2 * first : max(0, 2 * (first + num_return) - 1)]
     return "".join(parts)
 
 
